@@ -118,18 +118,44 @@ def shard_fn(shard, nshards, seed, tier, exe, ndocs):
             if chunked:
                 # the same strict parse fed in pieces of 1..7 bytes: where the calls are cut must not let an extension through
                 cmds.append("LPC %d 0 %d x%s" % (1 | u8, rng.choice([1, 1, 2, 3, 5, 7]), h))
+            inside = kind != "trailing-garbage" and not ctx.startswith("after-last")
+            xt = dchunk = None
+            if inside and rng.random() < 0.5:
+                # strict mode with ALLOW_TRAILING_CHARS on top: that flag is about what FOLLOWS the value; an extension inside the value is refused as before
+                xt = len(cmds)
+                cmds.append("P %d 0 1 x%s" % (3 | u8, h))
+            if inside and rng.random() < 0.3:
+                # default mode fed in pieces: the extension is accepted wherever the calls are cut, with the same value
+                dchunk = len(cmds)
+                # (without VALIDATE_UTF8 unless the text is ASCII: a call that ends inside a multi-byte character is an error under that flag, by design)
+                cmds.append("LPC %d 0 %d x%s" % (u8 if all(b < 0x80 for b in vt) else 0, rng.choice([1, 1, 2, 3, 5, 7]), h))
+            reuse = None
+            if kind != "trailing-garbage" and rng.random() < 0.2:
+                # a strict parser that has been used before: the ORIGINAL document first (accepted), a reset (always / only as the API requires), then the variant --
+                # strictness is configuration of the parser, not state of one document
+                reuse = len(cmds)
+                cmds.append("PM %d 0 %d x%s x%s" % (1 | u8, rng.choice([1, 2]), text.hex(), h))
             cases.append((cid, cmds))
-            meta[cid] = (kind, ctx, vt, neutral, extra, expd, text, chunked)
+            meta[cid] = (kind, ctx, vt, neutral, extra, expd, text, chunked, xt, dchunk, reuse)
     results, crashes = core.run_script(exe, cases, tag="c16", env=core.ambient_env(sh, shard))
     cmdmap = dict(cases)
     for cr in crashes:
         k, frame = cr.summary()
         sh.violation("C16/crash/%s/%s" % (k, frame), "crash on variant %r" % (meta[cr.cid][2][:80],), {"driver": "jcdrv", "script": cmdmap[cr.cid], "stderr": cr.stderr[-2000:]})
     for cid, lines in results.items():
-        kind, ctx, vt, neutral, extra, expd, text, chunked = meta[cid]
+        kind, ctx, vt, neutral, extra, expd, text, chunked, xt, dchunk, reuse = meta[cid]
         rep = {"driver": "jcdrv", "variant": "asan", "script": cmdmap[cid], "original": text.decode("utf-8", "replace"), "variant_text": vt.decode("utf-8", "replace"), "kind": kind}
         parsed = []
-        for ln in lines[:len(cmdmap[cid])]:
+        for li, ln in enumerate(lines[:len(cmdmap[cid])]):
+            if li == reuse:
+                first, _, second = ln.partition(" || ")
+                sh.count("strict_parser_reused_after_the_original_document")
+                if first.split()[1] != "0":
+                    sh.violation("C16/strict-rejects-original", "strict mode rejected the ORIGINAL document (error %s): %r" % (first.split()[1], text[:100]), rep)
+                elif second.split()[0] == "0":
+                    sh.violation("C16/strict-accepts-on-reused-parser/%s" % kind, "a strict parser that had parsed the original document before accepted %s at %s: %r" % (kind, ctx, vt[:100]), rep)
+                parsed.append((None, None, None))
+                continue
             f = ln.split(" ", 4)
             if f[0] != "=" or len(f) < 5:
                 raise core.Inconclusive("bad driver line " + ln[:100])
@@ -140,8 +166,19 @@ def shard_fn(shard, nshards, seed, tier, exe, ndocs):
             sh.violation("C16/strict-accepts/%s" % kind, "strict mode accepted %s at %s: %r" % (kind, ctx, vt[:100]), rep)
         if chunked:
             sh.count("strict_parses_fed_in_chunks")
-            if parsed[-1][0] == 0:
+            if parsed[3 if kind == "trailing-garbage" else 2][0] == 0:
                 sh.violation("C16/strict-accepts-when-chunked/%s" % kind, "strict mode accepted %s at %s when the text was fed in chunks (%s): %r" % (kind, ctx, cmdmap[cid][-1].split()[3], vt[:100]), rep)
+        if xt is not None:
+            sh.count("strict_with_allow_trailing_on_extensions_inside_the_value")
+            if parsed[xt][0] == 0:
+                sh.violation("C16/strict-allow-trailing-accepts/%s" % kind, "STRICT|ALLOW_TRAILING_CHARS accepted %s at %s (inside the value): %r" % (kind, ctx, vt[:100]), rep)
+        if dchunk is not None and derr == 0:
+            sh.count("default_parses_fed_in_chunks")
+            cerr, cend, cdump = parsed[dchunk]
+            if cerr != 0:
+                sh.violation("C16/default-rejects-when-chunked/%s" % kind, "default mode rejected %s at %s (error %d) when the text was fed in chunks (%s): %r" % (kind, ctx, cerr, cmdmap[cid][dchunk].split()[3], vt[:100]), rep)
+            elif cdump.split(" | ")[0] != ddump:
+                sh.violation("C16/default-value-changed-when-chunked/%s" % kind, "default mode gives another value for %s at %s when fed in chunks: %r" % (kind, ctx, vt[:100]), dict(rep, one_shot=ddump[:300], chunked=cdump[:300]))
         if derr != 0:
             sh.violation("C16/default-rejects/%s" % kind, "default mode rejected %s at %s with error %d: %r" % (kind, ctx, derr, vt[:100]), rep)
         else:
